@@ -320,6 +320,37 @@ func run(out *Out, r *Rand, tier string, replay []string) {
 			emit("cyclic", segs, "")
 		}
 	}
+	// large List(Bool): the elements around index 1<<22 (byte offset 1<<19) and the last ones
+	for _, n := range []uint32{1<<22 - 1, 1 << 22, 1<<22 + 1, 1<<22 + 777} {
+		seg := make([]byte, 8+(n+7)/8)
+		copy(seg, rd.Words(rd.ListPtr(0, 1, n)))
+		for k := 0; k < 256; k++ {
+			seg[8+r.Intn(len(seg)-8)] = byte(r.U64())
+		}
+		seg[8+(1<<19)-1] |= 0x80
+		if len(seg) > 8+(1<<19) {
+			seg[8+(1<<19)] |= 0x01
+		}
+		seg[len(seg)-1] = 0xff
+		for len(seg)%8 != 0 {
+			seg = append(seg, 0)
+		}
+		m := &rd.Msg{Segs: [][]byte{seg}, T: bigT, D: bigD, Arena: "S"}
+		c := &session{s: &rd.Session{M: m.Build()}}
+		ops := []string{"root"}
+		for _, i := range []int64{0, 1, 1<<22 - 2, 1<<22 - 1, 1 << 22, 1<<22 + 1, 1<<22 + 8, int64(n) - 2, int64(n) - 1, int64(r.Intn(int(n)))} {
+			if i >= 0 && i < int64(n) {
+				ops = append(ops, fmt.Sprintf("bitat:0:%d", i))
+			}
+		}
+		ops = append(ops, "info:0")
+		var obs []string
+		for _, op := range ops {
+			obs = append(obs, c.do(op))
+		}
+		o := strings.Join(obs, ";")
+		out.Case("bigbits", m.Header()+" "+strings.Join(ops, ";")+" valid", o, classOf(o), true) // "valid": spec-valid by construction
+	}
 	out.Extra["x_skipped_oversized"] = skipped
 	out.Close("messages: layout-randomised encodings of random value trees (1..5 segments, near/far/double-far per edge, section sizes shorter/longer than the value, list upgrades, padding garbage), messages built by the library, mutations of both, raw pointer-shaped words, cyclic templates; T=2^62, D=1000; ops chosen adaptively + field sweeps 0..DataSize+8 + whole-tree walk; encoded messages also carry the tree the encoder started from. non-trivial = at least two struct/list pointers were obtained")
 }
